@@ -46,11 +46,11 @@ AllReqs ==
 \* ------------------------------------------------------------------ entry alphabets
 Alphabet(field) ==
   CASE field = "verbs"         -> {Star, T("get"), Neg(T("get")), T("list"), Neg(T("list")), Neg(T("create"))}
-    [] field = "apiGroups"     -> {Star, E, T("apps"), Neg(T("apps")), Neg(T("batch")), T("batch")}
+    [] field = "apiGroups"     -> {Star, E, Neg(E), T("apps"), Neg(T("apps")), Neg(T("batch")), T("batch")}     \* Neg(E) = "-": everything but the core group
     [] field = "resources"     -> {Star, T("pods"), Neg(T("pods")), T("deps"), Neg(T("deps")),
                                    <<"pods", "/", "status">>, <<"*", "/", "status">>, Neg(<<"*", "/", "status">>),
                                    Neg(<<"pods", "/", "status">>), <<"*", "/", "scale">>}
-    [] field = "resourceNames" -> {Star, T("n1"), Neg(T("n1")), T("n2"), Neg(T("n2"))}
+    [] field = "resourceNames" -> {Star, T("n1"), Neg(T("n1")), T("n2"), Neg(T("n2")), Neg(E)}                       \* Neg(E) = "-": any NAMED object
     [] field = "users"         -> {Star, Alice, Neg(Alice), <<"al", "*">>, Neg(<<"al", "*">>), Bob, Neg(Bob), SAU}
     [] field = "userGroups"    -> {Star, T("g1"), Neg(T("g1")), T("g2"), Neg(T("g2")), T("g4")}
     [] field = "nonResourceURLs" -> {Star, Hz, <<"/healthz", "/", "*">>, <<"/healthz", "*">>, Api, Neg(Hz)}
